@@ -344,6 +344,56 @@ def check_flush_reaches_int(rep, mod, K):
                 'and, for a full flush, the match history was not cleared' % (name, bad[0][0] if bad else '', bad[0][1] if bad else ''), key='R-FLUSH-REACHES-INT|' + name, sample='%s: every success return runs the state machine' % name)
 
 
+def check_drain_continues(rep, mod, K):
+    """isal_deflate_int first hands out what an earlier call left in the 16-byte temporary output buffer.  When that is done and output space is left, the call has to go on with
+    the state machine - the caller may have brought new input and a flush request; giving up there returns a call that looks complete without having looked at its input."""
+    import c19
+    R = rep.rule('R-DRAIN-CONTINUES', 'isal_deflate_int: a return that is reached without running isal_deflate_pass / isal_deflate_icf_pass lies behind an edge that established avail_out == 0 or state == ZSTATE_END '
+                 '(with those edges removed, and the blocks that call a pass function removed, no return is reachable from the entry): after draining the temporary output the call goes on whenever it can',
+                 floor=1, unit='functions')
+    f = mod.funcs.get('isal_deflate_int')
+    if f is None:
+        raise AnalysisBroken('isal_deflate_int not found')
+    R.instance()
+    P = irrules.prov(mod, f)
+    zo = c19.field_offsets('struct isal_zstream', ['avail_out', 'internal_state.state'])
+    END = mirror.c_values('default', ['igzip_lib.h'], [('END', 'ZSTATE_END')], 'c14_end')[0]['END']
+    just = set()
+    for b, t, c in irrules.cond_branches(mod, f):
+        if c is None or c.op != 'icmp' or c.extra['pred'] not in ('eq', 'ne') or not re.match(r'^\d+$', c.ops[1]):
+            continue
+        d = f.defs.get(irrules._strip(f, c.ops[0]))
+        if d is None or d.op != 'load':
+            continue
+        at = P.atoms(d.ops[0])
+        k = int(c.ops[1])
+        tt, tf = t.extra['targets']
+        hit = (at == {('param', 0, zo['avail_out'])} and k == 0) or (at == {('param', 0, zo['internal_state.state'])} and k == END)
+        if hit:
+            just.add((b, tt if c.extra['pred'] == 'eq' else tf))
+    passblocks = {i.block for i in f.all_insns() if i.op == 'call' and i.callee in ('isal_deflate_pass', 'isal_deflate_icf_pass')}
+    if not passblocks or not just:
+        raise AnalysisBroken('isal_deflate_int: pass calls / guarding tests not found (%d / %d)' % (len(passblocks), len(just)))
+    seen, work = set(), [f.entry()]
+    while work:
+        b = work.pop()
+        if b in seen or b in passblocks:
+            continue
+        seen.add(b)
+        work += [s_ for s_ in f.blocks[b].succs if (b, s_) not in just]
+    rets = [b for b in seen if f.blocks[b].insns[-1].op == 'ret']
+    # a function with a single return block reaches it from everywhere: look at the predecessors that jump to it instead
+    bad = []
+    for rb in rets:
+        for pb in f.blocks[rb].preds:
+            if pb in seen and (pb, rb) not in just and pb not in passblocks:
+                # is pb on a path that ran a pass?  (blocks after a pass call are reachable only through passblocks, which were removed)
+                bad.append(pb)
+    R.check(not bad, mod.where(f, f.blocks[bad[0]].insns[-1]) if bad else mod.where(f, None), 'isal_deflate_int can return from block %s without having run a pass of the state machine although neither '
+            'avail_out == 0 nor state == ZSTATE_END was established: input and a flush request that came with this call are ignored, and the call returns looking like a completed flush' % (bad[0] if bad else ''),
+            key='R-DRAIN-CONTINUES|isal_deflate_int', sample='isal_deflate_int: early returns only behind avail_out == 0 / ZSTATE_END')
+
+
 def check_retry_buffered(rep, mod):
     """isal_deflate works from its internal buffer when the caller's pieces are small: the input is copied (and counted as consumed), then a pass of the state machine runs.  A pass
     that is entered with the marker of an EARLIER flush still pending only completes that marker.  The loop around the pass therefore has to be able to run again although the
@@ -422,6 +472,7 @@ def main(tier):
     rep.attempt(check_mask_width, rep, mod)
     rep.attempt(check_flush_reaches_int, rep, mod, K)
     rep.attempt(check_retry_buffered, rep, mod)
+    rep.attempt(check_drain_continues, rep, mod, K)
     import c17
     rep.attempt(c17.check_masked_nohist, rep, mod)
     rep.attempt(c17.check_hist_after_space, rep)      # after a full flush has_hist is IGZIP_NO_HIST again: the mask-only finder must not look the first position up
